@@ -342,6 +342,7 @@ func runScheduler(h *hz.H) {
 	}
 	var st exploreStats
 	var mu sync.Mutex
+	boundsUsed := map[int]int{}
 	type job struct {
 		md      protoreflect.MessageDescriptor
 		variant int
@@ -374,7 +375,7 @@ func runScheduler(h *hz.H) {
 					if ti >= 3 && i != j && (i+j)%2 == 1 {
 						continue
 					}
-					jobs = append(jobs, job{md, 0, [][]readOp{{alpha[i]}, {alpha[j]}}, 2, 1200})
+					jobs = append(jobs, job{md, 0, [][]readOp{{alpha[i]}, {alpha[j]}}, 2, 6000})
 				}
 			}
 		}
@@ -391,7 +392,17 @@ func runScheduler(h *hz.H) {
 	h.Par(int64(len(jobs)), "scheduler harnesses", func(i int64) {
 		j := jobs[i]
 		var s exploreStats
-		explore(h, j.md, j.variant, j.ops, j.bound, j.maxExec, &s)
+		bound := j.bound
+		if !h.Thorough() {
+			// long programs get preemption bound 1 in the quick tier so that the exploration completes; the bound used is reported
+			if probe := execute(j.md, j.variant, j.ops, nil); len(probe.choices) > 110 {
+				bound = 1
+			}
+		}
+		explore(h, j.md, j.variant, j.ops, bound, j.maxExec, &s)
+		mu.Lock()
+		boundsUsed[bound]++
+		mu.Unlock()
 		mu.Lock()
 		st.states += s.states
 		st.transitions += s.transitions
@@ -410,6 +421,9 @@ func runScheduler(h *hz.H) {
 	h.Rep.States = st.states
 	h.Rep.Transitions = st.transitions
 	h.Rep.Traces = st.executions
+	for b, n := range boundsUsed {
+		h.Counter(fmt.Sprintf("partA_harnesses_explored_with_preemption_bound_%d", b), int64(n))
+	}
 	if st.executions < int64(len(jobs))*2 {
 		h.InternalError("vacuous: the scheduler explored fewer than two schedules per harness on average")
 	}
